@@ -36,8 +36,7 @@ class AbstractHash(object):
         self.blocksize = 8 * block_bytes; self.outlen = out_bytes; self.tag = tag
         self.calls = []
     def spec(self, m):
-        from pyvc.sbytes import SBytesT
-        if isinstance(m, SBytesT):
+        if type(m).__name__ == 'SBytesT':
             return list(hash_uf_tail(len(m.items), self.outlen, self.tag)(*m.items, m.tail))
         m = list(m)
         return list(hash_uf(len(m), self.outlen, self.tag)(*m))
